@@ -14,6 +14,7 @@ from .core import SymInt, SymBool, sym_int, sym_isinstance
 REPO = os.environ.get('DROOP_REPO', '/repo')
 
 STUBS = []
+ORIG_STR = {}
 
 
 def import_droop():
@@ -52,9 +53,6 @@ def install_int_shims():
     _note('Fixed.__bool__/Guarded.__bool__ wrapped as bool(original(self))')
 
 
-ORIG_STR = {}
-
-
 def install_str_placeholder():
     "count mode: formatting is not the subject; log messages embed values through %s"
     import droop.values.fixed as fm
@@ -68,12 +66,17 @@ def install_str_placeholder():
     _note('__str__ of Fixed/Guarded/Rational -> placeholder (count mode only)')
 
 
+MARKERS = {}
+
+
 def install_str_markers():
     "C14/C18: __str__ returns a unique marker per value object, __repr__ a different one"
     import droop.values.fixed as fm
     import droop.values.guarded as gm
     import droop.values.rational as rm
-    reg = {}
+    reg = MARKERS
+    for cls in (fm.Fixed, gm.Guarded, rm.Rational):
+        ORIG_STR.setdefault(cls, cls.__dict__['__str__'])
 
     def s(self):
         k = '<S%d>' % len(reg)
